@@ -58,6 +58,25 @@ def check_node(node):
                 break
         got, exc, exhausted = observe.take(lambda: ds2, m.n + 3)
         observe.check_stream(got, exc, exhausted, m, node['op'], 'iter-after-random-access')
+    if m.n >= 2 and progs.crc(progs.show(node)) % 2 == 0:
+        # ... and not after a pass that was ABANDONED (a peek, a break, an error in the consumer's loop body): the
+        # generator is closed at a yield, whatever a stage keeps between passes must not leak into the next one.
+        # On a fresh build, once with one example taken and once with all but one.
+        ds3, _ = progcheck.build_checked(node)
+        for take_n in (1, m.n - 1):
+            it = iter(ds3)
+            try:
+                for _ in range(take_n):
+                    next(it)
+            except observe.PASS_THROUGH:
+                raise
+            except BaseException as e:  # noqa: raising programs end early, that is part of the history too
+                e.__traceback__ = None
+            finally:
+                if hasattr(it, 'close'):
+                    it.close()
+            got, exc, exhausted = observe.take(lambda: ds3, m.n + 3)
+            observe.check_stream(got, exc, exhausted, m, node['op'], 'iter-after-abandoned-pass')
     return m
 
 
